@@ -12,7 +12,8 @@ Line protocol for C15 (sections are separated by ` | `).
 Commands
 * `c15.arith <mul|div|add|sub> <factor> <p> <tolData> <tolUnits> | <in> | <out or ERR>` →
   `model=<neuron or ERR> corr=<ok|diff:fields> phys=<1|0|na> back=<1|0|na>`
-  (`phys`: `samePhysB` of input and the implementation's output — the property checker of
+  (`phys` for `add/sub`: world coordinates and connectors shifted by the same vector, radii and units
+  untouched; for `mul/div`: `samePhysB` of input and the implementation's output — the property checker of
   `Props.C15.samePhysB_sound` — with the larger of the two tolerances, since pint's unit magnitudes are rounded; `back`: undoing the operation on the implementation's output with the model
   gives back the input)
 * `c15.convert <tgt> <p> <tolData> <tolUnits> | <in> | <out or ERR>` → same shape, `back=` is
@@ -158,8 +159,15 @@ def runArith (op : String) (f : Factor) (p : Int) (tolD tolU : Rat) (x : Neuron)
     | _ => none
   let scaling := op == "mul" || op == "div"
   let radii := decide (f.rad = f.xyz.x)
+  let tolP := if tolD < tolU then tolU else tolD
   let phys := match out with
-    | some o => if scaling then b01 (samePhysB (if tolD < tolU then tolU else tolD) radii x o) else "na"
+    | some o =>
+      if scaling then b01 (samePhysB tolP radii x o)
+      else
+        -- shifts: world coordinates and connectors moved by the same vector; radii and units untouched
+        let sh : V3 → V3 := fun c => if op == "add" then c.add f.xyz else c.sub f.xyz
+        b01 (closeL tolD (worldPts o) ((worldPts x).map sh) && closeL tolD o.conns (x.conns.map sh)
+              && closeRL 0 o.radii x.radii && decide (o.units = x.units))
     | none => "na"
   -- undo the operation on the implementation's output (returning to the input's prefix)
   let back := match out with
